@@ -21,7 +21,7 @@ LEVEL = "proof"
 PROPS_FILE = "C09.v"
 RUN_MODULE = "RunC09"
 TRANSLATOR_UNITS = []
-SHARD = 40
+SHARD = 125
 RULE = ("dom/names: seeded random designs (module trees of depth<=3, 3-9 signals with names drawn from a pool of 11 so that "
         "names clash with each other, with clk/rst of implicit domains and with submodule names; 2-5 undeclared clock domains "
         "used by sync statements, ClockSignal/ResetSignal reads, memory ports and Instance ports; locally declared domains; "
@@ -46,15 +46,15 @@ ASSUMPTIONS = [
     "CPython set iteration order is outside the model; the theorems show that the modelled steps do not depend on it",
     "Python sorted() on str = lexicographic order on code points (Repro.lex_leb); str.encode('utf-8') as Repro.utf8 for "
     "non-surrogate code points",
-    "the engine's step function reads only the observed fields (hypothesis of C09_reset_rerun_same_trace); the real "
-    "step_design also reads _active_triggers, which reset() leaves (S5, see C09_reset_not_fresh_refuted)",
+    "the engine's step function reads only the observed fields (hypothesis of C09_reset_rerun_same_trace: everything but "
+    "_delta_cycles, used for VCD time stamps only, and the slots' waker lists, whose stale closures switch themselves off); "
+    "validated by the run/reset/rerun comparison of value traces and advance() stop times",
     "file names are relative normalised POSIX paths (BuildPlan.add_file rejects absolute ones; not modelled)",
 ]
 
 QUICK_SEEDS = 6
 THOROUGH_SEEDS = 24
 FIXED_HASH_SEEDS = [0, 1, 2, 3, 17]
-FINDING_S5 = "S5-reset-leaves-active-triggers"
 
 
 # ------------------------------------------------------------------ literals
@@ -536,7 +536,17 @@ def gen_stim(r, D):
     if r.random() < 0.6 and D["free"]:
         bg = [r.choice(D["free"]), r.choice([1, 3, 4]), r.random() < 0.5]
     total = sum(s[1] for s in steps if s[0] == "delay")
-    stop = r.choice([1, 2, 3, max(1, total), max(1, total // 2), total + 20, 50])
+    prefix, acc = [], 0
+    for s in steps:                      # instants at which a delay of the testbench expires (exact when no tick precedes)
+        if s[0] == "delay":
+            acc += s[1]
+            prefix.append(acc)
+    if prefix and r.random() < 0.5:
+        stop = r.choice(prefix)
+    elif bg and r.random() < 0.4:
+        stop = bg[1] * r.randint(1, 6)
+    else:
+        stop = r.choice([1, 2, 3, max(1, total), max(1, total // 2), total + 20, 50])
     return {"clocks": clocks, "steps": steps, "bg": bg, "stop": stop}
 
 
@@ -728,7 +738,6 @@ def gen_cases(tier, seed):
     key = (tier, seed)
     if key in _CACHE:
         return _CACHE[key]
-    sys.path.insert(0, "/repo") if "/repo" not in sys.path else None
     r = random.Random(seed)
     thorough = tier == "thorough"
     cases = []
@@ -739,11 +748,11 @@ def gen_cases(tier, seed):
             for ns in itertools.product(pool, repeat=n):
                 cases.append({"k": "add", "g": "exh", "init": init, "ns": list(ns)})
     pool2 = ["a", "b", "a$1", "a$3", "a$10", "a$11", "a$12", "b$2", "", "a$1$2", "a$01"]
-    for _ in range(300 if not thorough else 6000):
+    for _ in range(300 if not thorough else 4000):
         init = r.sample(pool2, r.randint(0, 3))
         cases.append({"k": "add", "g": "rand", "init": init, "ns": [r.choice(pool2) for _ in range(r.randint(1, 14))]})
     # --- _assign_port_names
-    for _ in range(250 if not thorough else 5000):
+    for _ in range(250 if not thorough else 3000):
         ports = []
         for _ in range(r.randint(1, 7)):
             cn = r.choice(["a", "a", "b", "clk", "a$1", "a$2", ""] if r.random() < 0.9 else [""])
@@ -755,7 +764,7 @@ def gen_cases(tier, seed):
             seen.add(p[0])
         cases.append({"k": "ports", "ports": ports})
     # --- designs: created domains / ports, naming
-    for i in range(220 if not thorough else 4000):
+    for i in range(220 if not thorough else 2500):
         D = gen_design(r, sim=False, plain_names=True)
         cases.append({"k": "dom", "design": D})
         if i % 2 == 0:
@@ -765,10 +774,10 @@ def gen_cases(tier, seed):
             except Exception as e:      # the dom case reports it
                 pass
     # --- build plans
-    for _ in range(300 if not thorough else 5000):
+    for _ in range(300 if not thorough else 3000):
         cases.append(gen_plan(r))
     # --- reset
-    for _ in range(120 if not thorough else 2000):
+    for _ in range(120 if not thorough else 1200):
         D = gen_sim_design(r)
         S = gen_stim(r, D)
         try:
@@ -830,7 +839,7 @@ def run_impl(c):
         same = int(snapshot(sim) == c["pre"])
         sim.reset()
         return [same] + enc_snapshot(snapshot(sim))
-    raise ValueError(k)
+    return recheck(c)            # replay of a violation reported by extra()
 
 
 def coq_term(c):
@@ -993,10 +1002,100 @@ def advance_stops(sim, limit_fs, max_steps=400):
     return out
 
 
+KIND_ITEMS = {"rtlil": "designs", "sim-trace": "sims", "build-plan": "plans"}
+
+
+def check_double_conversion(D):
+    """two conversions of freshly built copies of the design in this interpreter: (differs, [sha, sha])"""
+    t1 = elaborate_obs(D)[3]
+    t2 = elaborate_obs(D)[3]
+    return t1 != t2, [sha(t1), sha(t2)]
+
+
+def check_reset_rerun(D, S):
+    """run to S.stop, reset(), rerun; compare with a fresh simulator.
+    Returns (which clause failed or None, detail, statistics)"""
+    from amaranth.sim import Period
+    stats = {}
+    limit = S["stop"] + 40
+    tr0 = []
+    sim0, _, _ = make_sim(D, S, tr0)
+    sim0.run_until(Period(ns=limit))
+    tr1 = []
+    sim1, _, _ = make_sim(D, S, tr1)
+    sim1.run_until(Period(ns=S["stop"]))
+    stats["active"] = int(len(sim1._engine._active_triggers) > 0)
+    sim1.reset()
+    bad = []
+    for sl in sim1._engine._state.slots:       # all signals and memories back at their initial contents
+        if type(sl).__name__ == "_PySignalState":
+            if sl.curr != sl.signal.init or sl.next != sl.signal.init:
+                bad.append(sl.signal.name)
+        elif list(sl.data) != list(sl.memory._init._raw) or sl.write_queue:
+            bad.append("memory")
+    if bad or sim1._engine.now != 0:
+        return "reset-init", {"not_initial": bad, "now": int(sim1._engine.now)}, stats
+    del tr1[:]
+    stops1 = advance_stops(sim1, limit * 1_000_000)
+    simf, _, _ = make_sim(D, S, [])
+    stops0 = advance_stops(simf, limit * 1_000_000)
+    stats["rows"] = len(tr0)
+    if tr1 != tr0:
+        return "reset-trace", {"fresh": tr0[:20], "after_reset": tr1[:20]}, stats
+    if stops1 != stops0:
+        return "reset-stops", {"fresh": stops0[:30], "after_reset": stops1[:30]}, stats
+    return None, {}, stats
+
+
+def check_plan_repeat(P, refp=None):
+    """Platform.build(do_build=False) twice on fresh platforms, archive twice, extract: (which differs or None, detail)"""
+    p1, p2 = platform_job(P), platform_job(P)
+    f1, f2 = plan_fingerprint(p1), plan_fingerprint(p2)
+    b1, b2 = io.BytesIO(), io.BytesIO()
+    p1.archive(b1)
+    p1.archive(b2)
+    listing = extract_listing(p1)
+    planned = sorted((fn, c.encode("utf-8") if isinstance(c, str) else bytes(c)) for fn, c in p1.files.items())
+    which = None
+    if f1 != f2 or dict(p1.files) != dict(p2.files) or list(p1.files) != list(p2.files) or (refp is not None and f1 != refp):
+        which = "files/digest"
+    elif b1.getvalue() != b2.getvalue():
+        which = "archive"
+    elif listing != planned:
+        which = "extract"
+    return which, {"first": f1, "second": f2, "other_interpreter": refp,
+                   "extracted": [fn for fn, _ in listing], "planned": [fn for fn, _ in planned]}, len(p1.files)
+
+
+def recheck(c):
+    """replay of a violation found by extra(): [0] = the clause holds now, [1] = it still fails"""
+    k = c["k"]
+    if k.startswith("hashseed:"):
+        items = KIND_ITEMS[k.split(":", 1)[1]]
+        job = {"designs": [], "sims": [], "plans": []}
+        job[items] = [c["input"]]
+        a, b_ = (run_worker(s, job)[items][0] for s in c["seeds"])
+        return [int(a != b_)]
+    if k == "double-conversion":
+        return [int(check_double_conversion(c["input"])[0])]
+    if k in ("reset-init", "reset-trace", "reset-stops"):
+        return [int(check_reset_rerun(*c["input"])[0] is not None)]
+    if k.startswith("plan-repeat"):
+        return [int(check_plan_repeat(c["input"])[0] is not None)]
+    if k == "probe":
+        pr = _probe_s5()
+        return [int(pr[0] != pr[1])]
+    raise ValueError(k)
+
+
+def _viol(case, explain, detail):
+    return {"property": ID, "kind": "input", "case": case, "expected_by_model": [0], "observed": [1],
+            "explain": explain + " (replay answer: [0] = reproducible now, [1] = still differs)", "detail": detail}
+
+
 def extra(tier, seed, findings):
     from concurrent.futures import ThreadPoolExecutor
     thorough = tier == "thorough"
-    listed = {f.get("id") for f in findings if f.get("property") == ID and f.get("status") == "open"}
     r = random.Random(seed * 7919 + 11)
     viol, cov = [], {}
     nd, ns, npl = (40, 20, 9) if not thorough else (400, 120, 45)
@@ -1016,122 +1115,76 @@ def extra(tier, seed, findings):
     with ThreadPoolExecutor(min(16, len(seeds))) as ex:
         results = list(ex.map(lambda s: run_worker(s, job), seeds))
     ref = results[0]
-    n_err = sum(1 for d in ref["designs"] if "error" in d)
     diffs = 0
     for s, res in zip(seeds[1:], results[1:]):
-        for kind, items, descs in (("rtlil", "designs", designs), ("sim-trace", "sims", sims), ("build-plan", "plans", plans)):
+        for kind, items in KIND_ITEMS.items():
             for i, (a, b_) in enumerate(zip(ref[items], res[items])):
                 if a != b_:
                     diffs += 1
                     if diffs <= 3:
-                        viol.append({"property": ID, "kind": "input", "case": {"k": "hashseed:" + kind, "input": descs[i],
-                                                                                 "seeds": [seeds[0], s]},
-                                     "expected_by_model": a, "observed": b_,
-                                     "explain": f"{kind} differs between PYTHONHASHSEED={seeds[0]} and {s}"})
-    cov["hashseed_runs"] = {"seeds": seeds, "designs": nd, "designs_elaboration_errors": n_err, "simulations": ns,
-                            "platform_plans": npl, "differences": diffs,
-                            "created_domains_histogram": dict(collections.Counter(
-                                len(d.get("created", [])) for d in ref["designs"]))}
-    plan_errs = [p["error"] for p in ref["plans"] if "error" in p]
-    sim_errs = [x for x in ref["sims"] if x.startswith("error")]
-    cov["hashseed_runs"]["plan_errors"] = plan_errs[:3]
-    cov["hashseed_runs"]["sim_errors"] = sim_errs[:3]
-    # ---- in-process: double conversion, equal to the subprocess result
-    from amaranth.back import rtlil
+                        viol.append(_viol({"k": "hashseed:" + kind, "input": job[items][i], "seeds": [seeds[0], s]},
+                                          f"{kind} differs between PYTHONHASHSEED={seeds[0]} and {s}",
+                                          {str(seeds[0]): a, str(s): b_}))
+    cov["hashseed_runs"] = {
+        "seeds": seeds, "designs": nd, "simulations": ns, "platform_plans": npl, "differences": diffs,
+        "designs_elaboration_errors": sum(1 for d in ref["designs"] if "error" in d),
+        "created_domains_histogram": dict(collections.Counter(len(d.get("created", [])) for d in ref["designs"])),
+        "plan_errors": [p_["error"] for p_ in ref["plans"] if "error" in p_][:3],
+        "sim_errors": [x for x in ref["sims"] if x.startswith("error")][:3]}
+    # ---- in-process: double conversion, equal to the result of the separate interpreter
     n_same = 0
     for D, refd in zip(designs, ref["designs"]):
         if "error" in refd:
             continue
-        t1 = elaborate_obs(D)[3]
-        t2 = elaborate_obs(D)[3]
-        if t1 != t2 or sha(t1) != refd["rtlil"]:
-            viol.append({"property": ID, "kind": "input", "case": {"k": "double-conversion", "input": D},
-                         "expected_by_model": sha(t1), "observed": sha(t2),
-                         "explain": "two conversions of the same design in one interpreter (or vs a fresh interpreter) differ"})
+        differs, shas = check_double_conversion(D)
+        if differs or shas[0] != refd["rtlil"]:
+            viol.append(_viol({"k": "double-conversion", "input": D},
+                              "two conversions of the same design in one interpreter (or vs a fresh interpreter) differ",
+                              {"in_process": shas, "other_interpreter": refd["rtlil"]}))
         else:
             n_same += 1
     cov["double_conversion_identical"] = n_same
     # ---- run / reset / rerun
-    from amaranth.sim import Period
     st = collections.Counter()
-    s5_seen = None
     for D, S in sims:
         try:
-            tr0 = []
-            sim0, sigs0, mems0 = make_sim(D, S, tr0)
-            limit = S["stop"] + 40
-            sim0.run_until(Period(ns=limit))
-            stops0 = None
-            tr1 = []
-            sim1, sigs1, mems1 = make_sim(D, S, tr1)
-            sim1.run_until(Period(ns=S["stop"]))
-            part = len(tr1)
-            st["active_triggers_at_reset"] += int(len(sim1._engine._active_triggers) > 0)
-            sim1.reset()
-            # all signals and memories back at their initial contents
-            bad = []
-            for sl in sim1._engine._state.slots:
-                if type(sl).__name__ == "_PySignalState":
-                    if sl.curr != sl.signal.init or sl.next != sl.signal.init:
-                        bad.append(sl.signal.name)
-                elif list(sl.data) != list(sl.memory._init._raw) or sl.write_queue:
-                    bad.append("memory")
-            if bad or sim1._engine.now != 0:
-                viol.append({"property": ID, "kind": "input", "case": {"k": "reset-init", "input": [D, S]},
-                             "expected_by_model": [], "observed": bad, "explain": "not at initial contents after reset()"})
-            del tr1[:]
-            stops1 = advance_stops(sim1, limit * 1_000_000)
-            simf, _, _ = make_sim(D, S, [])
-            stops0 = advance_stops(simf, limit * 1_000_000)
-            st["reruns"] += 1
-            st["trace_rows"] += len(tr0)
-            if tr1 != tr0:
-                viol.append({"property": ID, "kind": "input", "case": {"k": "reset-trace", "input": [D, S]},
-                             "expected_by_model": tr0[:20], "observed": tr1[:20],
-                             "explain": "testbench observations after reset() differ from those of a fresh simulator"})
-            elif stops1 != stops0:
-                st["advance_stops_differ_after_reset"] += 1
-                if s5_seen is None:
-                    s5_seen = {"input": [D, S], "fresh": stops0[:30], "after_reset": stops1[:30]}
+            which, detail, stats = check_reset_rerun(D, S)
         except Exception as e:
             st["sim_errors:" + type(e).__name__] += 1
+            continue
+        st["reruns"] += 1
+        st["active_triggers_at_reset"] += stats.get("active", 0)
+        st["trace_rows"] += stats.get("rows", 0)
+        if which is not None:
+            st[which] += 1
+            viol.append(_viol({"k": which, "input": [D, S]},
+                              {"reset-init": "signals / memories / time not at their initial contents after reset()",
+                               "reset-trace": "testbench observations after reset() differ from those of a fresh simulator",
+                               "reset-stops": "after reset() advance() stops at other instants than in a fresh simulator "
+                                              "(S5, fixed by 3953703: a trigger left in _active_triggers)"}[which], detail))
     cov["reset_reruns"] = dict(st)
     probe = _probe_s5()
     cov["probe_s5_advance_counts(fresh, after run_until+reset)"] = probe
-    if probe[0] != probe[1] or s5_seen is not None:
-        what = (f"{FINDING_S5}: Simulator.reset() leaves PySimEngine._active_triggers; a trigger whose delay expired exactly "
-                f"when run_until() stopped is re-run after reset() and re-arms its delay waker, so the rerun's advance() "
-                f"stops at an extra point in time (advance() calls until the testbench ends: fresh {probe[0]}, after "
-                f"run_until(7 ns)+reset {probe[1]}); values observed by testbenches are unaffected")
-        if FINDING_S5 in listed:
-            viol.append({"known": what})
-        else:
-            viol.append({"property": ID, "kind": "input", "case": {"k": "probe", "which": "s5", "seen": s5_seen},
-                         "expected_by_model": [probe[0]], "observed": [probe[1]], "explain": what})
+    if probe[0] != probe[1]:
+        viol.append(_viol({"k": "probe", "which": "s5"},
+                          "advance() calls until the testbench (delay 2ns, set, delay 5ns, set, delay 20ns) ends: fresh "
+                          "simulator vs run_until(7ns) + reset(): Simulator.reset() leaves a trigger active (S5)",
+                          {"fresh": probe[0], "after_reset": probe[1]}))
     # ---- Platform.build twice on fresh platforms, archive twice, extract into a scratch dir
     pst = collections.Counter()
     for P, refp in zip(plans, ref["plans"]):
         try:
-            p1, p2 = platform_job(P), platform_job(P)
+            which, detail, nfiles = check_plan_repeat(P, refp)
         except Exception as e:
             pst["build_errors:" + type(e).__name__] += 1
             continue
-        f1, f2 = plan_fingerprint(p1), plan_fingerprint(p2)
-        b1, b2 = io.BytesIO(), io.BytesIO()
-        p1.archive(b1)
-        p1.archive(b2)
-        listing = extract_listing(p1)
-        planned = sorted((fn, c.encode("utf-8") if isinstance(c, str) else bytes(c)) for fn, c in p1.files.items())
-        ok = (f1 == f2 and f1 == refp and b1.getvalue() == b2.getvalue() and listing == planned
-              and dict(p1.files) == dict(p2.files) and list(p1.files) == list(p2.files))
         pst["plans"] += 1
-        pst["files"] += len(p1.files)
+        pst["files"] += nfiles
         pst[P["vendor"]] += 1
-        if not ok:
-            which = ("files/digest" if f1 != f2 or f1 != refp else "archive" if b1.getvalue() != b2.getvalue() else "extract")
-            viol.append({"property": ID, "kind": "input", "case": {"k": "plan-repeat:" + which, "input": P},
-                         "expected_by_model": f1, "observed": f2 if f1 != f2 else refp,
-                         "explain": "Platform.build(do_build=False) twice / archive twice / extract: " + which + " differ"})
+        if which is not None:
+            viol.append(_viol({"k": "plan-repeat:" + which, "input": P},
+                              "Platform.build(do_build=False) twice / other interpreter / archive twice / extract: "
+                              + which + " differ", detail))
     cov["platform_plans"] = dict(pst)
     return viol, cov
 
